@@ -280,7 +280,7 @@ func c13ErrFoldSel(c *Ctx, fn *ssa.Function, sel func(ssa.CallInstruction) bool,
 	}
 	cut := 0
 	seqs, trunc := ConcPaths(fn, ConcCfg{
-		MaxIter: 2, Cut: &cut, IterClosures: true,
+		MaxIter: depth(2, 3), Cut: &cut, IterClosures: true, MaxStates: 600000,
 		Fork: func(in ssa.Instruction, st *ConcState) []ConcAlt {
 			var v ssa.Value
 			switch x := in.(type) {
@@ -448,7 +448,7 @@ func c13MultiWrite(c *Ctx, fn *ssa.Function) {
 	}
 	cut := 0
 	seqs, trunc := ConcPaths(fn, ConcCfg{
-		MaxIter: 2, Cut: &cut, IterClosures: true,
+		MaxIter: depth(2, 3), Cut: &cut, IterClosures: true, MaxStates: 600000,
 		Event: func(in ssa.Instruction, st *ConcState) string {
 			switch x := in.(type) {
 			case *ssa.Call:
@@ -521,7 +521,7 @@ func c13MultiWrite(c *Ctx, fn *ssa.Function) {
 				}
 			}
 		}
-		if writes == 2 {
+		if writes >= 2 {
 			two++
 		}
 		last := toks[len(toks)-1]
